@@ -142,7 +142,8 @@ claim('C18', 'flow rule inside JsonGenerator: value / literal text must pass a J
 claim('C34', 'table agreement: dependent List / List! signatures (typed HIR) vs symbolic-length interpretation of the run-time list operations (python ast + frozen built-in list semantics)',
       'Decides only the length clause ("length-indexed list types", "an index the checker accepts as in range for a list type is in range at run time") and only at the declarations: '
       'every List / List! operation whose declared type computes a length (N + M, N + 1, N * M, N - 1, 0) is bound to a run-time implementation that produces that length; '
-      'the index type of __getitem__ ends at N - 1; a list literal is given the number of its lowered elements as length.',
+      'the index type of __getitem__ ends at N - 1; a list literal is given the number of its lowered elements as length; the +, -, * of the declared lengths are folded by '
+      'ValueObj::try_add / try_sub / try_mul, whose numeric arms each apply their own operator in operand order.',
       'Soundness of substitution / unification / evaluation of these signatures during inference, and the singleton / enum / interval clauses of the property, are not decided '
       '(the arithmetic tables behind the latter are decided under C02 / C04 / C26).',
       'DESIGN.md §8.2 C34')
